@@ -7,7 +7,7 @@ def _auth_wrapper(q):
     """what `safely_unquote_auth_item` does besides the partial whose flags are read above, PROBED on the real
     function, every non-ASCII code point: the set of code points whose escapes it keeps (upper-case escapes of
     the UTF-8 bytes, also when the character is given raw) while the partial of the same configuration decodes
-    them.  FX-C01-NFKCUSERINFO: that set must be `Gen.nfkcDelimCodes` (what the running `urlsplit` refuses in a
+    them.  FX-C01-194b1c7: that set must be `Gen.nfkcDelimCodes` (what the running `urlsplit` refuses in a
     netloc), compared by the obligation `Props.C14.tables_auth_wrapper`; on the unfixed code it is empty."""
     from functools import partial
 
@@ -70,7 +70,7 @@ def _auth_wrapper(q):
         "has a compatibility form of its own, U+0080–U+30FF, every 61st code point above -/",
         "def authItemRequotedCodes : List Nat := %s" % lean_nat_list(requoted),
         "/-- `safely_unquote_auth_item` is the partial followed by the re-quoting of the characters `urlsplit` refuses in",
-        "a netloc for their NFKC form (FX-C01-NFKCUSERINFO): the probed set above is the table observed on the running",
+        "a netloc for their NFKC form (FX-C01-194b1c7): the probed set above is the table observed on the running",
         "`urlsplit` (`Gen.nfkcDelimCodes`), the re-quoted form is `quote(char)`, also in context (next to text, behind an",
         "ill-formed byte, applied twice), and every ASCII character / escape is treated as the partial treats it -/",
         "def authItemRequotesNfkcDelims : Bool := %s" % ("true" if ok else "false"),
@@ -104,7 +104,7 @@ def gen_quote():
     ]:
         p = getattr(q, py_name)
         if py_name == "safely_unquote_auth_item" and not hasattr(p, "func"):
-            # FX-C01-NFKCUSERINFO: the public name is a plain function wrapping the partial
+            # FX-C01-194b1c7: the public name is a plain function wrapping the partial
             # `_safely_unquote_auth_item`; the flags are those of the inner partial, what the wrapper adds
             # is probed below (`authItemRequotesNfkcDelims`)
             p = getattr(q, "_" + py_name, p)
